@@ -59,12 +59,14 @@ def not_fixed_point(make_top, group, state, inputs=None):
   return None
 
 
-def groups_disagree(make_top, ga, gb, state, cycles):
-  """cycles: list of {input cell: int}; compares every cell after eval and after tick"""
-  from vlib.ffreplay import apply_group
+def groups_disagree(make_top, ga, gb, state, cycles, ff_orders=None):
+  """cycles: list of {input cell: int}; compares every cell after eval and after tick.  ff_orders: {group: the iteration
+  order of the update_ff set the symbolic run saw} -- that order is address-dependent, and a counterexample may depend on it"""
+  from vlib.ffreplay import apply_group, force_ff_order
   runs = []
   for g in (ga, gb):
-    top = make_top(); apply_group(top, g)
+    top = make_top()
+    with force_ff_order((ff_orders or {}).get(g)): apply_group(top, g)
     cells = _cells(top); _plant(cells, state)
     tr = []
     try:
